@@ -57,6 +57,53 @@ def check(run, prog, tier):
                         "converts it back to the current units (and package code that consumes such a getter for a "
                         "calculation does so under internal units)", minimum=4)
     rule_U10(run, prog)
+    run.rule("C05-U11", "functions that convert a supplied value to internal units do not write into the object they "
+                        "were given", minimum=30)
+    rule_U11(run, prog)
+
+
+def rule_U11(run, prog):
+    """A value supplied under a units context is converted once.  A function that converts (part of) an argument
+    to internal units and writes the result back into the argument changes the caller's object: submitted again,
+    under any context, it is converted a second time, and if the object itself is stored, the stored value changes
+    with it."""
+    rid = "C05-U11"
+    n = 0
+    for f in prog.all_functions():
+        if ".tests." in f.qualname or ".wizard." in f.qualname:
+            continue
+        if not any(isinstance(x, ast.Call) and (call_name(x) or "").endswith("2_internal_u") for x in walk_no_nested(f.node)):
+            continue
+        n += 1
+        prog.consulted.add(f.relpath)
+        params = {a.arg for a in f.node.args.args + f.node.args.kwonlyargs} - {"self", "cls"}
+        rebound = {}      # parameter -> first line at which the name is rebound to a new object
+        for x in walk_no_nested(f.node):
+            if isinstance(x, ast.Assign):
+                for t_ in x.targets:
+                    if isinstance(t_, ast.Name) and t_.id in params:
+                        rebound[t_.id] = min(rebound.get(t_.id, 10**9), x.lineno)
+        bad = []
+        for x in walk_no_nested(f.node):
+            tg = x.targets if isinstance(x, ast.Assign) else ([x.target] if isinstance(x, ast.AugAssign) else [])
+            for t_ in tg:
+                b, sub = t_, False
+                while isinstance(b, (ast.Subscript, ast.Attribute)):
+                    sub = True
+                    b = b.value
+                if isinstance(b, ast.Name) and b.id in params and (sub or isinstance(x, ast.AugAssign)) \
+                        and x.lineno <= rebound.get(b.id, 10**9):
+                    bad.append(x)
+            if isinstance(x, ast.Call) and isinstance(x.func, ast.Attribute) and isinstance(x.func.value, ast.Name) \
+                    and x.func.value.id in params and x.func.attr in ("append", "extend", "insert", "update", "pop", "clear", "sort") \
+                    and x.lineno <= rebound.get(x.func.value.id, 10**9):
+                bad.append(x)
+        run.obligation(rid, f.short, not bad, key="argument-intact",
+                       message="%s converts to internal units and writes into its argument (%s): the caller's object is "
+                               "changed, a second submission converts it again" % (f.short, norm(bad[0])[:50] if bad else ""),
+                       loc=f.loc(bad[0]) if bad else f.loc(), sample={"function": f.short})
+    if n < 30:
+        raise AnalysisError("C05-U11: only %d functions converting to internal units found (47 confirmed)" % n)
 
 
 def converting_setter_pairs(prog):
@@ -484,6 +531,31 @@ def rule_U4(run, prog):
         ok = len(ifs) == 1 and norm(ifs[0].test) == "units == 'nm'"
         run.obligation(rid, "Manager." + name, ok, key="nm-branch",
                        message="wavelength units must be handled by the reciprocal branch", loc=f.loc())
+        if not ok:
+            continue
+        # the array path of the reciprocal branch: same map as the scalar fall-back, into an array that can hold it
+        par = f.node.args.args[1].arg
+        allocs = [n for s_ in ifs[0].body for n in ast.walk(s_) if isinstance(n, ast.Assign) and isinstance(n.value, ast.Call)
+                  and call_name(n.value) in ("zeros", "zeros_like", "empty", "empty_like")]
+        for a in allocs:
+            dt = [k.value for k in a.value.keywords if k.arg == "dtype"] or a.value.args[1:2]
+            like = call_name(a.value).endswith("_like")
+            inherits = (like and not dt) or (dt and norm(dt[0]) in ("%s.dtype" % par, "%s.dtype.type" % par))
+            run.obligation(rid, "Manager." + name, not inherits, key="nm-array-element-type",
+                           message="the array of reciprocals is allocated with the element type of the input (%s): for "
+                                   "whole-number wavelengths the reciprocals are truncated to zero" % norm(a.value),
+                           loc=f.loc(a), sample={"allocation": norm(a.value)})
+        if allocs:
+            rn = norm(allocs[0].targets[0])
+            stx = [norm(x) for s_ in ifs[0].body for x in ast.walk(s_) if isinstance(x, ast.stmt)]
+            fill = [x for x in stx if x.startswith(rn + "[")]
+            ok2 = len(fill) == 1 and fill[0].replace(" ", "") in (
+                "%s[%s!=0.0]=1.0/%s[%s!=0]" % (rn, par, par, par), "%s[%s!=0]=1.0/%s[%s!=0]" % (rn, par, par, par),
+                "%s[%s!=0.0]=1.0/%s[%s!=0.0]" % (rn, par, par, par)) and ("return %s / cfact" % rn) in stx
+            run.obligation(rid, "Manager." + name, ok2, key="nm-array-map",
+                           message="the array path of the wavelength branch must be (1/x)/factor on the non-zero entries "
+                                   "and zero elsewhere, as the scalar path", loc=f.loc(allocs[0]),
+                           sample={"fill": fill})
 
 
 def _return_expr(f, reciprocal):
